@@ -179,6 +179,12 @@ func (t *Table) addGlobalIndex(gsiInput *types.GlobalSecondaryIndex) error {
 		return err
 	}
 
+	// index the items the table already holds
+	for key, item := range t.Data {
+		// items whose index key attributes have another type are not indexed
+		_ = i.putData(key, item)
+	}
+
 	t.Indexes[*gsiInput.IndexName] = i
 
 	return nil
